@@ -681,6 +681,7 @@ def _mk_table(fn):
     return t
 
 
+_CASE_TABLES = {}
 _UPPER = _mk_table(str.upper)
 _LOWER = _mk_table(str.lower)
 _COMP = None
@@ -956,11 +957,24 @@ class SSeq:
         return SSeq(self.n, lambda p: map_code(base.get(p), table, generic, hint), self.maxlen,
                     self.kind, map_hint(hint, table))
 
+    def _case_table(self, fn, default):
+        # letters outside ALPH (codes >= 1000) are only known through the hint
+        if self.hint is None or all(c < 1000 for c in self.hint):
+            return default
+        t = dict(default)
+        for c in self.hint:
+            if c >= 1000:
+                d = code_of(fn(char_of(c)))
+                if d != c:
+                    t[c] = d
+        key = (fn.__name__, frozenset(t.items()))
+        return _CASE_TABLES.setdefault(key, t)
+
     def upper(self):
-        return self.mapped(_UPPER, str.upper)
+        return self.mapped(self._case_table(str.upper, _UPPER), str.upper)
 
     def lower(self):
-        return self.mapped(_LOWER, str.lower)
+        return self.mapped(self._case_table(str.lower, _LOWER), str.lower)
 
     def complement(self):
         import Bio.Seq
